@@ -176,6 +176,13 @@ def edge_wrapper_adjacency(ctx, oid: str, wf: Func, wname: str):
         tests_in_loop = [b for b in wcfg.guards(an) if b.test.kind == "test" and b.test.loop is lp]
         if not inside or tests_in_loop:
             ok, why = False, f"`{ast.unparse(a)}` is conditional or outside the loop over the input edges"
+        elif isinstance(lp.ast.target, ast.Tuple) and len(lp.ast.target.elts) >= 2 and len(a.args) == 1:
+            # direction: the list of the edge's first endpoint receives its second (the successor), weights ride along
+            src, dst = ast.unparse(lp.ast.target.elts[0]), ast.unparse(lp.ast.target.elts[1])
+            got_key = ast.unparse(a.func.value)[4:-1]
+            got_val = a.args[0].elts[0] if isinstance(a.args[0], ast.Tuple) and a.args[0].elts else a.args[0]
+            if got_key != src or ast.unparse(got_val) != dst:
+                ok, why = False, f"`{ast.unparse(a)}` for an edge ({src}, {dst}): the list of `{got_key}` receives `{ast.unparse(got_val)}` - the routine then runs on the reversed graph (components come out sources first, a topological order backwards, distances *to* the source)"
     ctx.ob(oid, "R18 SIBLING-AGREEMENT (policy)", wf, f"{wname} builds one successor list per node and appends every input edge", ok, why, node=wf.node)
 
 
